@@ -47,6 +47,9 @@ def _tss(t):
     if t[0] == "notseq":
         return {"int": 7, "gen": (x for x in []), "set": {1}}[t[1]]
     items = [_arg(a) for a in t[1]]
+    if t[0] == "userlist":
+        import collections
+        return collections.UserList(items)
     return tuple(items) if t[0] == "tuple" else items
 
 
@@ -112,25 +115,35 @@ def run_impl(c):
     k = c["k"]
     if k == "init":
         def f():
+            import collections
+            from nitypes.waveform import Timing as T
             tss_in = _tss(c["tss"])
-            t = _build(c) if not isinstance(tss_in, list) else None
-            if t is None:
-                # build with a list the caller keeps, then mutate that list afterwards
-                from nitypes.waveform import Timing as T
-                ctor = c.get("ctor", "general")
-                if ctor == "irregular":
-                    t = T.create_with_irregular_interval(tss_in)
-                elif ctor == "general":
-                    t = T(_mode(c["mode"]), _arg(c["ts"]), _arg(c["off"]), _arg(c["si"]), tss_in)
-                else:
-                    t = _build(c)
+            ctor = c.get("ctor", "general")
+            kw = {}
+            if c.get("copy_ts") is not None and ctor == "general":
+                kw["copy_timestamps"] = c["copy_ts"]
+            if ctor == "irregular":
+                t = T.create_with_irregular_interval(tss_in)
+            elif ctor == "general":
+                t = T(_mode(c["mode"]), _arg(c["ts"]), _arg(c["off"]), _arg(c["si"]), tss_in, **kw)
+            else:
+                t = _build(c)
+            handed_over = isinstance(tss_in, list) and kw.get("copy_timestamps") is False   # documented: takes ownership of a list
+            frozen_ok = True
+            if isinstance(tss_in, (list, tuple, collections.UserList)) and t._timestamps is not None:
                 keep = list(tss_in)
-                tss_in.reverse(); tss_in.append("junk")
-                rep = _report(t)
-                if t._timestamps is not None and list(t._timestamps) != keep:
-                    rep["frozen"] = False
-                return rep
-            return _report(t)
+                # whatever sequence type was given, the Timing equals the one built from a plain list of the same items
+                if not (t == T.create_with_irregular_interval(list(keep))) or type(t._timestamps) is not list:
+                    frozen_ok = False
+                if isinstance(tss_in, (list, collections.UserList)) and not handed_over:
+                    # the caller keeps using (and changing) its sequence
+                    tss_in.reverse(); tss_in.append("junk")
+                    if list(t._timestamps) != keep:
+                        frozen_ok = False
+            rep = _report(t)
+            if not frozen_ok:
+                rep["frozen"] = False
+            return rep
         return vf.try_impl(f)
     if k == "eq":
         a, b = _build(c["a"]), _build(c["b"])
@@ -191,7 +204,7 @@ def sig(c, r):
     outcome = r.get("exc", "ok")
     kind = lambda a: a[0] + (a[1] if a[0] in ("dtm", "td", "wrong") else "")
     t = c["tss"]
-    tk = t[0] + (str(len(t[1])) + "".join(sorted({kind(a) for a in t[1]})) if t[0] in ("list", "tuple") else "")
+    tk = t[0] + (str(len(t[1])) + "".join(sorted({kind(a) for a in t[1]})) if t[0] in ("list", "tuple", "userlist") else "")
     return "init|%s|%s|%s|%s|%s|%s|%s" % (c["mode"], c.get("ctor", "general"), kind(c["ts"]), kind(c["off"]), kind(c["si"]), tk, outcome), True
 
 
@@ -246,6 +259,13 @@ def gen_cases(rng, tier):
                 cases.append({"k": "init", "ctor": "regular", "mode": 1, "ts": ts, "off": off, "si": si, "tss": none})
     for tss in tsss:
         cases.append({"k": "init", "ctor": "irregular", "mode": 2, "ts": none, "off": none, "si": none, "tss": tss})
+    # the general constructor with copy_timestamps given, over list / tuple / UserList inputs
+    for tss in tsss:
+        if tss[0] not in ("list", "tuple"):
+            continue
+        for kind in ("list", "tuple", "userlist"):
+            for copy_ts in (False, True):
+                cases.append({"k": "init", "mode": 2, "ts": none, "off": none, "si": none, "tss": [kind, tss[1]], "copy_ts": copy_ts})
     # equality: pairs of accepted timings of one family
     descs = []
     for fam in ("Dt", "Ht", "Bt"):
